@@ -12,7 +12,18 @@ Areas (harness go/cmd/c02):
         math/big renderings of the same value (no Lean model)
 """
 
+import re
+
 OVERLAY = {"xmath/num/verif_c02.go": "c02_consts.go"}
+_CONSTS = re.compile(r"^([0-9a-f]{16} ){5}[0-9a-f]{16}$")
+
+
+def _canon_no_consts(out):
+    """Black-box build (overlay fallback): the `consts` line is not observed on the implementation side, so neither the
+    stub's token nor the model's six bit patterns take part in the comparison."""
+    if out == "consts-unavailable" or _CONSTS.match(out):
+        return "consts-not-compared"
+    return out
 
 
 def _tag(line, out):
@@ -47,8 +58,13 @@ def run(ctx):
     ]
     ctx.lean(props=["Props.C02"], drivers=["drv_c02"])
     ctx.harness("./cmd/c02", overlay=OVERLAY)
+    canon = None
+    if ctx.extra.get("overlay_fallback"):
+        canon = _canon_no_consts
+        ctx.assumptions.append("the white-box accessor for the private float constants did not compile against this "
+                               "tree; the `consts` line is not compared (black-box build, tag nooverlay)")
     ctx.diff(area="conv", driver="drv_c02", n={"quick": 300000, "thorough": 6000000},
-             trivial=lambda l, o: False, tagger=_tag,
+             trivial=lambda l, o: l == "consts" and canon is not None, tagger=_tag, canon=canon,
              theorem="C02.* (model = specification: exact value, truncation, saturation, grammar); impl != model on "
                      "this input")
     ctx.diff(area="f64", driver="drv_c02", n={"quick": 200000, "thorough": 5000000},
